@@ -149,7 +149,8 @@ M('C12-raise-to-warning', 'C12', F_P8,
   expect='R-C12-taint')
 M('C12-require-filter-after-locate', 'C12', F_BUILD,
   "        # Disallow chars that select files outside of the load path.\n"
-  "        if b'./' in require_path or require_path.startswith(b'/'):\n"
+  "        if (b'./' in require_path or require_path.startswith(b'/') or\n"
+  "                require_path == b'..' or require_path.endswith(b'/..')):\n"
   "            raise LuaBuildError(\n"
   "                'require() filename cannot contain \"./\" or \"../\" or start '\n"
   "                'with \"/\"', require_token)\n"
@@ -158,9 +159,18 @@ M('C12-require-filter-after-locate', 'C12', F_BUILD,
   "        if require_path not in package_lua:\n",
   expect='R-C12-taint')
 M('C12-require-filter-no-abs', 'C12', F_BUILD,
-  "        if b'./' in require_path or require_path.startswith(b'/'):\n",
-  "        if b'./' in require_path:\n",
+  "        if (b'./' in require_path or require_path.startswith(b'/') or\n",
+  "        if (b'./' in require_path or\n",
   expect='R-C12-taint')
+M('C12-revert-fix27-dotdot', 'C12', F_BUILD,
+  "        if (b'./' in require_path or require_path.startswith(b'/') or\n"
+  "                require_path == b'..' or require_path.endswith(b'/..')):\n",
+  "        if b'./' in require_path or require_path.startswith(b'/'):\n",
+  expect='R-C12-taint', note='require("..") with the template ?/init.lua')
+M('C12-dotdot-only-whole', 'C12', F_BUILD,
+  "                require_path == b'..' or require_path.endswith(b'/..')):\n",
+  "                require_path == b'..'):\n",
+  expect='R-C12-taint', note='require("sub/..")')
 M('C12-locate-join-cwd', 'C12', F_BUILD,
   "            candidate = os.path.join(rel_path_base, candidate)\n",
   "            candidate = os.path.join(os.getcwd(), candidate)\n",
@@ -171,9 +181,14 @@ M('C12-n-commonpath', 'C12', F_P8,
   "        if os.path.commonpath([root_path, inc_full_path]) != root_path:\n",
   kind='neutral')
 M('C12-n-isabs', 'C12', F_BUILD,
-  "        if b'./' in require_path or require_path.startswith(b'/'):\n",
-  "        if b'./' in require_path or os.path.isabs(require_path_str):\n",
+  "        if (b'./' in require_path or require_path.startswith(b'/') or\n",
+  "        if (b'./' in require_path or os.path.isabs(require_path_str) or\n",
   kind='neutral')
+M('C12-n-components', 'C12', F_BUILD,
+  "                require_path == b'..' or require_path.endswith(b'/..')):\n",
+  "                require_path in (b'.', b'..') or\n"
+  "                require_path.endswith((b'/..', b'/.'))):\n",
+  kind='neutral', note='single-dot last component rejected as well')
 
 # ---------------------------------------------------------------- C13 ----
 M('C13-always-gfx', 'C13', F_BUILD,
@@ -1096,7 +1111,8 @@ M('C05-literal-index-from-0', 'C05', F_COMPRESS,
 M('C05-overlap-allowed', 'C05', F_COMPRESS,
   "        while (j - i) < max_len and j < pos and dat[j] == dat[pos + j - i]:\n",
   "        while (j - i) < max_len and dat[j] == dat[pos + j - i]:\n",
-  expect='R-C05-wellformed')
+  kind='neutral', note='offset < length is allowed by the format; the '
+  'decoder copies byte by byte')
 M('C05-window-too-wide', 'C05', F_COMPRESS,
   "    max_hist_len = (255 - len(COMPRESSED_LUA_CHAR_TABLE)) * 16\n",
   "    max_hist_len = (256 - len(COMPRESSED_LUA_CHAR_TABLE)) * 16\n",
